@@ -1669,17 +1669,22 @@ class zip(Stream):
         self._retain_refs(metadata)
         L = self.buffers[who]  # get buffer for stream
         L.append((x, metadata))
-        if len(L) == 1 and all(self.buffers.values()):
-            vals = [self.buffers[up][0] for up in self.upstreams]
-            tup, md = __builtins__['zip'](*vals)
-            for buf in self.buffers.values():
-                buf.popleft()
-            self.condition.notify_all()
-            if self.literals:
-                tup = self.pack_literals(tup)
-            md = [m for ml in md for m in ml]
-            ret = self._emit(tup, md)
-            self._release_refs(md)
+        if all(self.buffers.values()):
+            ret = []
+            # normally this is exactly one tuple; there are more when an
+            # input that was lagging behind has been removed and complete
+            # tuples of the remaining inputs are still waiting
+            while self.buffers and all(self.buffers.values()):
+                vals = [self.buffers[up][0] for up in self.upstreams]
+                tup, md = __builtins__['zip'](*vals)
+                for buf in self.buffers.values():
+                    buf.popleft()
+                self.condition.notify_all()
+                if self.literals:
+                    tup = self.pack_literals(tup)
+                md = [m for ml in md for m in ml]
+                ret.extend(self._emit(tup, md))
+                self._release_refs(md)
             return ret
         elif len(L) > self.maxsize:
             return self._wait_for_room(L)
